@@ -243,6 +243,16 @@ impl<'g, 's> ParserGenerator<'g, 's> {
             Error::Error(format!("Cannot write parser file '{out_file:?}': {e:?}."))
         })?;
 
+        #[cfg(rustemo_verif)]
+        crate::verif_dump::dump(
+            &out_file,
+            &self.out_dir_actions,
+            &self.file_name,
+            self.grammar,
+            &self.table,
+            self.settings,
+        );
+
         Ok(())
     }
 
